@@ -422,17 +422,17 @@ inline Angle<NumericType> PlanarVector<NumericType>::Angle(
 template <typename NumericType>
 inline Angle<NumericType>::Angle(const PlanarVector<NumericType>& planar_vector,
                                  const PlanarDirection<NumericType>& planar_direction)
-  : Angle(std::acos(planar_vector.Dot(planar_direction) / planar_vector.Magnitude())) {}
+  : Angle(ArcCosine(planar_vector.Dot(planar_direction) / planar_vector.Magnitude())) {}
 
 template <typename NumericType>
 inline Angle<NumericType>::Angle(const PlanarDirection<NumericType>& planar_direction,
                                  const PlanarVector<NumericType>& planar_vector)
-  : Angle(std::acos(planar_direction.Dot(planar_vector) / planar_vector.Magnitude())) {}
+  : Angle(ArcCosine(planar_direction.Dot(planar_vector) / planar_vector.Magnitude())) {}
 
 template <typename NumericType>
 inline Angle<NumericType>::Angle(const PlanarDirection<NumericType>& planar_direction_1,
                                  const PlanarDirection<NumericType>& planar_direction_2)
-  : Angle(std::acos(planar_direction_1.Dot(planar_direction_2))) {}
+  : Angle(ArcCosine(planar_direction_1.Dot(planar_direction_2))) {}
 
 }  // namespace PhQ
 
